@@ -42,15 +42,53 @@ META = {
     "title": "Generic textual form round-trips every valid IR",
     "design_ref": "DESIGN.md section 8.C04",
     "technique": "Coq proofs about an executable model of printer name allocation / parser name resolution and of the generic operation syntax + regex translation + model-vs-code correspondence + print/parse/print oracle on generated IR, the .mlir corpus and pass outputs",
-    "level_text": "",
-    "level_note": "",
+    "level_text": (
+        "Theorems in coq/Props/C04.v, for EVERY IR skeleton (operations with results, operands, successors, nested "
+        "isolated / non-isolated regions, multi-block regions, forward value and block references, name hints; "
+        "attributes, properties and types opaque) and for each of the 16 configurations of four code switches "
+        "(pinned ... repaired): (M1) C04_names_unique / C04_block_labels_unique: the names of the values of the "
+        "open printer scopes and the labels of one region are pairwise distinct at every moment; C04_roundtrip: "
+        "parsing the printed names succeeds, yields the same skeleton over new object identities with the hints the "
+        "printer acted on, and the parsed skeleton prints the same names; C04_deterministic: a copy over other "
+        "identities prints the same names; (M3) C04_syntax_roundtrip / C04_text_roundtrip: the generic token stream "
+        "(results, operands, successors, properties, regions with omitted entry label, attribute dictionary, function "
+        "type) parses back to the tree; (M2) C04_hint_lexable: a name accepted by a checked name pattern is one token "
+        "of a checked lexer pattern (the lexer pattern of the current source and the proposed re.ASCII name pattern "
+        "pass the check). The hypotheses are hints_ok (valid ASCII hints without trailing _<digits>; for switches that "
+        "are off: no bb<digits> block hint, no hint on an entry block whose label is omitted) and well_scoped. The "
+        "pinned tree REFUTES the unconditional statements (C04_names_unique_refuted, C04_default_block_hint_refuted, "
+        "C04_entry_hint_refuted, C04_iso_operand_refuted, C04_hint_lexable_refuted); with the proposed repairs the "
+        "hint hypothesis reduces to 'hints the API stores' (C04_roundtrip_repaired). The model is tied to "
+        "xdsl/printer.py, xdsl/parser/core.py, xdsl/ir/core.py, xdsl/utils/mlir_lexer.py by regex translation on every "
+        "run, by probes that read the four switches off the current code, and by seven correspondence / oracle families."),
+    "level_note": (
+        "Trusted: Coq kernel; hand-written model (Python dicts as association lists, object identity as integers, the "
+        "traversal order of printer and parser as one schedule); regex2coq translator and the Unicode tables sampled "
+        "from CPython; correspondence harness. Not covered by the proof: character-level layout / indentation, "
+        "dialect-specific attribute and type syntax (opaque tokens; property C06), FunctionType parenthesisation of a "
+        "single function-typed result, resources / metadata, print_debuginfo, custom assembly formats (C05), tuple "
+        "results (%x:2, %x#1), type agreement between uses and definitions; 'property equal to its declared default "
+        "counts as absent' and 'inherent attribute in the attribute dictionary counts as the property' are handled in "
+        "the harness comparison, not in Coq. xDSL's verifier does not check SSA visibility (a use after the region "
+        "that defines the value verifies but cannot round-trip): well_scoped is an assumption of the theorems and of "
+        "the generators."),
 }
-COQ_TARGETS = ["Gen/C04_current.vo", "C04/Enc.vo", "C04/ProofsStr.vo", "C04/ProofsGhost.vo", "C04/ProofsPrint.vo",
-               "C04/ProofsParse.vo", "C04/ProofsRound.vo", "C04/ProofsTree.vo", "C04/ProofsLex.vo", "C04/ProofsWit.vo",
+COQ_TARGETS = ["Gen/C04_current.vo", "C04/Enc.vo", "C04/EncRx.vo", "C04/ProofsStr.vo", "C04/ProofsGhost.vo", "C04/ProofsPrint.vo",
+               "C04/ProofsParse.vo", "C04/ProofsRound.vo", "C04/ProofsTree.vo", "C04/ProofsLex.vo", "C04/ProofsSyntax.vo",
+               "C04/ProofsWit.vo",
                "Props/C04.vo"]
 REQ = ["C04.Model", "C04.Enc", "Gen.C04_current"]
-ASSUMPTIONS = []
-TRUSTED = []
+REQ_RX = ["C04.Model", "C04.EncRx"]
+ASSUMPTIONS = [
+    "SSA visibility by region nesting (a value is used only inside the region that defines it or a region nested in it; xDSL's verifier does not check this, MLIR's does)",
+    "a successor is a labelled block of the enclosing region (not an entry block whose label the printer omits)",
+    "uses and definitions of a value agree on its type (the model's name resolution does not track types)",
+]
+TRUSTED = [
+    "harness/translate/regex2coq.py (pattern -> Regex.v AST) and the Unicode \\w / \\d tables sampled from CPython's re on every run (family name-pattern-unicode compares them with the real is_valid_name / lexer)",
+    "behaviour probes that select the model configuration (cur_cfg) from the current printer / ir.core code; a wrong selection shows as a divergence of family m1-skeletons",
+    "C07/Regex.v: CPython's backtracking matcher as modelled for property C07",
+]
 
 _STATE: dict = {}
 
@@ -298,6 +336,8 @@ def m1_impl(case):
         m2 = Parser(new_context(), text).parse_module()
     except ParseError:
         return [names, [-1, 1], flag]
+    except Exception as e:   # noqa: BLE001 -- any other exception class is visible as a divergence from the model
+        return [names, [-1, 100 + exc_code(e)], flag]
     _STATE["rec"] = []
     text2 = generic_text(m2, rec_printer())
     same = 1 if _STATE["rec"] == names else 0
@@ -691,8 +731,8 @@ def oracle_failures(m, allow_unregistered=False):
     ctx.allow_unregistered = allow_unregistered
     try:
         m2 = Parser(ctx, text).parse_module()
-    except ParseError as e:
-        out.append(("parse", "the generic text does not parse: " + str(e).strip().split("\n")[-1][:160]))
+    except Exception as e:   # noqa: BLE001 -- ParseError or worse: the text is not read back
+        out.append(("parse", f"the generic text does not parse ({type(e).__name__}): " + str(e).strip().split("\n")[-1][:160]))
         return out
     d1, d2 = canon_dump(m), canon_dump(m2)
     if d1 != d2:
@@ -918,6 +958,28 @@ def namefn_known(case, res):
 
 
 NAME_ALPHABET = [ord(c) for c in "ab_019$.-bZ "] + [0xE9, 0xB2, 0x663]
+UNI_ALPHABET = [ord(c) for c in "ab_09$.-Z"] + [0xE9, 0xB2, 0x663, 0xBD, 0x2167, 0x4E00, 0x301, 0x200B, 0xA0, 0xFF11, 0x1F600, 0x3A9,
+                                                 0x5D0, 0x2160, 0x1D7D8, 0x17B5, 0xAA, 0x2118, 0x309B]
+
+
+def rx_impl(case):
+    from xdsl.ir import SSAValue
+    s = "".join(map(chr, case["s"]))
+    lx = lexed_idents("%" + s + " ")
+    return [1 if SSAValue.is_valid_name(s) else 0, 1 if lx == [[0, case["s"]]] else 0]
+
+
+def rx_holds(case, res):
+    if res[0] == 1 and res[1] == 0:
+        return False, "is_valid_name accepts a name that the lexer does not read as one %name token"
+    return True, ""
+
+
+def gen_rx_cases(rng, n):
+    cases = [{"s": [ord(c) for c in s]} for s in ["a", "aé", "x²", "é", "a٣", "_", "a-b", "0a", "a½", "aⅧ", "a一", "aΩ", "$é"]]
+    for _ in range(n):
+        cases.append({"s": [rng.choice(UNI_ALPHABET) for _ in range(rng.choice([1, 2, 2, 3, 4]))]})
+    return cases
 
 
 def gen_name_cases(rng, n):
@@ -1051,7 +1113,8 @@ def run_passes_on(m, rng, max_passes=2):
     ctx.allow_unregistered = True
     for name, cls in rng.sample(_STATE["passes"], min(max_passes, len(_STATE["passes"]))):
         try:
-            with time_limit(5):
+            import contextlib
+            with time_limit(5), contextlib.redirect_stdout(io.StringIO()), contextlib.redirect_stderr(io.StringIO()):
                 cls().apply(ctx, m)
                 m.verify()
             applied.append(name)
@@ -1326,6 +1389,8 @@ def m3_parse_impl(case):
         m2 = Parser(new_context(), text).parse_module()
     except ParseError:
         return [-1, 1]
+    except Exception as e:   # noqa: BLE001 -- any other exception class is visible as a divergence from the model
+        return [-1, 100 + exc_code(e)]
     return [0, hsx(canon_leaves(m2)), hsx(real_payload(m2))]
 
 
@@ -1407,6 +1472,10 @@ def run(ctx: Ctx):
     ncases = gen_name_cases(rng, 3000 if thorough else 500)
     differential(ctx, DiffSpec("name-functions", REQ, ncases, namefn_impl, namefn_expr, namefn_holds, namefn_known,
                                lambda c, r: tuple(c["s"]) if r[0] != -1 else None, shard=400))
+    # (1b') the translated regexes with CPython's Unicode classes vs the real is_valid_name / lexer
+    xcases = gen_rx_cases(rng, 1500 if thorough else 300)
+    differential(ctx, DiffSpec("name-pattern-unicode", REQ_RX, xcases, rx_impl, lambda c: f"c04_rx {coq_cps(c['s'])}",
+                               rx_holds, namefn_known, lambda c, r: tuple(c["s"]) if r[0] else None, shard=400))
     # (1c) M3: token streams of rich operations, and the parser on pristine and mutated streams
     rcases = [gen_rich(rng, budget=rng.choice([4, 8, 12])) for _ in range(600 if thorough else 120)]
     rcases = [c for c in rcases if not defect_classes(build_rich(c)[0]) or True]
